@@ -96,9 +96,11 @@ CHECKS["C16"] = dict(
     note="Which documents the loader opens is taken from a recording store/cache (C12 covers the loader).",
 )
 CHECKS["C17"] = dict(
-    text=("Machine-checked theorems (Coq) over a Gallina model of Binding.headercontent/mkheader (positional loop that "
-          "skips surplus plain values and None, dict lookup, one element per item of a list-valued entry, deepcopy of "
-          "caller elements, setPrefix) and suds.wsse token rendering, reusing the C01 marshaller theorem for each "
+    text=("Machine-checked theorems (Coq) over a Gallina model of wsdl.Binding.add_operations/headpart_types (the "
+          "request's declared parts are the INPUT side's soap:header children only), Binding.headercontent/mkheader "
+          "(positional loop that skips surplus plain values and None, dict lookup incl. ready-made Elements as part "
+          "values, one element per item of a list-valued entry, deepcopy of caller elements, setPrefix) and suds.wsse "
+          "token rendering, reusing the C01 marshaller theorem for each "
           "entry: the Header holds exactly the configured entries marshalled per their schema and qualified by their "
           "own namespace (headers_as_configured, list_entry_one_element_per_item, positional_none_leaves_part_out, "
           "surplus_values_skipped_elements_kept), caller objects are never altered, repeating a call sends the same "
